@@ -3,7 +3,7 @@ import ReuseVerif
 open Proto
 
 namespace Ops
-open Model
+open Model.Download
 
 def parsePath (t : List Char) : Path := if t.isEmpty then [] else Py.splitOn ['/'] t
 
